@@ -424,7 +424,101 @@ def tpl_builtin(ch):
                 subjects={k: subjects[k]}, tags={'builtin', 'wrapped'})
 
 
+_OBS_BODY = (
+    '    def __getattribute__(self, name):\n        return {base}.__getattribute__(self, name)\n'
+    '    def __setattr__(self, name, value):\n        {base}.__setattr__(self, name, value)\n'
+    '    def __delattr__(self, name):\n        {base}.__delattr__(self, name)\n'
+)
+
+
+def tpl_observed(ch):
+    """Objects whose every attribute read / write / delete goes through Python-level
+    __getattribute__/__setattr__/__delattr__ defined in the world: each access sigtools makes on
+    them is a crossing, hence a crash point ("attribute getters" of the fault model)."""
+    kind = ch.draw(6, 'observed-kind')
+    inner = draw_inner(ch)
+    shape = draw_wrap(ch, both=True)
+    obs = _OBS_BODY.format(base='object')
+    src = HEADER + 'def inner({0}):\n    return "inner"\n\n'.format(inner)
+    if kind in (0, 1, 2, 5):
+        src += ('class Obs(object):\n' + obs +
+                '    def __call__(self, {shape}):\n        return inner(*{va}, **{vk})\n\n'
+                'o = Obs()\n').format(shape=shape[0], va=shape[1], vk=shape[2])
+        if kind in (0, 2, 5):
+            src += 'functools.update_wrapper(o, inner)\n'
+        if kind in (1, 2):
+            src += 'o.__signature__ = support.s("m, n=1, *args, **kwargs")\n'
+        src += 'def user(u, *args, **kwargs):\n    return o(*args, **kwargs)\n\n'
+        subjects = {'o': 'o', 'partial(o)': 'functools.partial(o, 1)', 'user': 'user'}
+        if kind == 5:
+            src += ('@functools.wraps(o)\n'
+                    'def w(q, *args, **kwargs):\n    return o(*args, **kwargs)\n\n')
+            subjects['w'] = 'w'
+    elif kind == 3:
+        declared = ch.draw(2, 'declared')
+        tsep = ', ' if inner else ''
+        src += ('class ObsF(object):\n' + obs +
+                '    __signature__ = specifiers.as_forged\n'
+                '{deco}'
+                '    def __call__(self, {shape}):\n        return self.method(*{va}, **{vk})\n'
+                '    def method(self{tsep}{inner}):\n        return "method"\n\n'
+                'o = ObsF()\no2 = ObsF()\n'
+                ).format(deco='    @specifiers.forwards_to_method("method")\n' if declared else '',
+                         shape=shape[0], va=shape[1], vk=shape[2], tsep=tsep, inner=inner)
+        subjects = {'o': 'o', 'o2': 'o2', 'ObsF': 'ObsF'}
+    else:
+        mstack = ch.pick([st for st in MOD_STACKS if not any('posoargs' in d for d in st)], 'mstack')
+        mdeco = ''.join('    @{0}\n'.format(d) for d in mstack)
+        tsep = ', ' if inner else ''
+        src += ('class ObsMeta(type):\n' + _OBS_BODY.format(base='type') + '\n'
+                'class K(object, metaclass=ObsMeta):\n' + obs +
+                '    def t(self{tsep}{inner}):\n        return "t"\n'
+                '{mdeco}    def m(self, a, b=0, c=1, *args, **kwargs):\n        return self.t(*args, **kwargs)\n'
+                '    @specifiers.forwards_to_method("t")\n'
+                '    def fm(self, {shape}):\n        return self.t(*{va}, **{vk})\n\n'
+                'k = K()\nk2 = K()\n'
+                ).format(tsep=tsep, inner=inner, mdeco=mdeco, shape=shape[0], va=shape[1], vk=shape[2])
+        subjects = {'k.m': 'k.m', 'K.m': 'K.m', 'k.fm': 'k.fm', 'K.fm': 'K.fm', 'k2.m': 'k2.m', 'K': 'K'}
+    return dict(template='observed', params=dict(kind=kind, inner=inner, shape=shape[0], src_len=len(src)), source=src,
+                subjects=subjects, tags={'observed', 'wrapped'})
+
+
+def tpl_instdep(ch):
+    """Signatures that depend on *which instance* was asked: methods forwarding to a callable
+    stored on the instance (declared and discovered), under modifiers, plus as_forged callables
+    with a per-instance target.  A wrapper bound to the wrong instance gives a visibly different
+    answer here."""
+    ia = draw_inner(ch)
+    ib = ch.pick([s for s in INNER_SHAPES if s != ia], 'inner-b')
+    mstack = ch.pick([st for st in MOD_STACKS if not any('posoargs' in d for d in st)], 'mstack')
+    shape = draw_wrap(ch, both=True)
+    mdeco = ''.join('    @{0}\n'.format(d) for d in mstack)
+    src = (HEADER +
+           'def ga({ia}):\n    return "ga"\n\n'
+           'def gb({ib}):\n    return "gb"\n\n'
+           'class K(object):\n'
+           '    def __init__(self, cb):\n        self.cb = cb\n'
+           '{mdeco}    def m(self, a, b=0, c=1, *args, **kwargs):\n        return self.cb(*args, **kwargs)\n'
+           '    @specifiers.forwards_to_method("cb")\n'
+           '{mdeco}    def fm(self, a, b=0, c=1, *args, **kwargs):\n        return self.cb(*args, **kwargs)\n'
+           '    @specifiers.forwards_to_method("cb")\n'
+           '    def pm(self, {shape}):\n        return self.cb(*{va}, **{vk})\n\n'
+           'class MyC(object):\n'
+           '    __signature__ = specifiers.as_forged\n'
+           '    def __init__(self, cb):\n        self.cb = cb\n'
+           '    @specifiers.forwards_to_method("cb")\n'
+           '    def __call__(self, {shape}):\n        return self.cb(*{va}, **{vk})\n\n'
+           'k = K(ga)\nk2 = K(gb)\noa = MyC(ga)\nob = MyC(gb)\n'
+           ).format(ia=ia, ib=ib, mdeco=mdeco, shape=shape[0], va=shape[1], vk=shape[2])
+    subjects = {'k.m': 'k.m', 'k2.m': 'k2.m', 'k.fm': 'k.fm', 'k2.fm': 'k2.fm', 'k.pm': 'k.pm',
+                'k2.pm': 'k2.pm', 'K.fm': 'K.fm', 'oa': 'oa', 'ob': 'ob'}
+    return dict(template='instdep', params=dict(ia=ia, ib=ib, mstack=mstack, shape=shape[0]), source=src,
+                subjects=subjects, tags={'modifiers', 'forger', 'asforged'})
+
+
 TEMPLATES = {
+    'instdep': tpl_instdep,
+    'observed': tpl_observed,
     'wraps': tpl_wraps,
     'wraps_annot': tpl_wraps_annot,
     'sigattr': tpl_sigattr,
